@@ -156,6 +156,55 @@ pub fn tcp_exchange_until(port: u16, payload: &[u8], until: &str, max_ms: u64) -
     Ok(String::from_utf8_lossy(&out).to_string())
 }
 
+/// One TCP connection used command by command: `cmd` writes a line and collects the lines the server sends up to and
+/// including its acknowledgement (`ok ...` or `error ...`), waiting as long as it takes (30 s at most).
+pub struct TcpSession {
+    stream: TcpStream,
+    pending: Vec<u8>,
+}
+
+impl TcpSession {
+    pub fn connect(port: u16) -> Result<TcpSession, String> {
+        let stream = TcpStream::connect(("127.0.0.1", port)).map_err(|e| format!("connect: {}", e))?;
+        stream.set_read_timeout(Some(Duration::from_millis(100))).ok();
+        let mut s = TcpSession { stream, pending: vec![] };
+        // the server greets every connection with one `ok` line before any command
+        s.read_ack("<greeting>")?;
+        Ok(s)
+    }
+
+    /// (acknowledgement line, the lines that came before it)
+    pub fn cmd(&mut self, line: &str) -> Result<(String, Vec<String>), String> {
+        self.stream.write_all(format!("{}\n", line).as_bytes()).map_err(|e| format!("write: {}", e))?;
+        self.read_ack(line)
+    }
+
+    fn read_ack(&mut self, line: &str) -> Result<(String, Vec<String>), String> {
+        let t0 = std::time::Instant::now();
+        let mut before = vec![];
+        let mut buf = [0u8; 4096];
+        loop {
+            while let Some(pos) = self.pending.iter().position(|b| *b == b'\n') {
+                let l: Vec<u8> = self.pending.drain(..=pos).collect();
+                let l = String::from_utf8_lossy(&l).trim_end_matches('\n').to_string();
+                if l.starts_with("ok") || l.starts_with("error") {
+                    return Ok((l, before));
+                }
+                before.push(l);
+            }
+            if t0.elapsed() > Duration::from_secs(30) {
+                return Err(format!("no acknowledgement within 30 s for {:?}; got {:?}", line, before));
+            }
+            match self.stream.read(&mut buf) {
+                Ok(0) => return Err(format!("the server closed the connection after {:?}; got {:?}", line, before)),
+                Ok(n) => self.pending.extend_from_slice(&buf[..n]),
+                Err(e) if e.kind() == std::io::ErrorKind::WouldBlock || e.kind() == std::io::ErrorKind::TimedOut => {}
+                Err(e) => return Err(format!("read: {}", e)),
+            }
+        }
+    }
+}
+
 // ------------------------------------------------------------------ WebSocket client (ws crate)
 
 #[derive(Clone, Debug)]
